@@ -404,3 +404,63 @@ def _plain(v):
     if type(v).__name__ == "AcErrorInfo":
         return {"code": v.code, "description": v.description}
     return v
+
+
+# -- record order (C03): the same message with its records listed in another order ------------------------------
+def _record_field(msg):
+    """(owner, field name, records) of the first list / tuple / dict of >= 2 records found in msg or its sub-message."""
+    import dataclasses
+
+    seen = 0
+    cur = msg
+    while cur is not None and dataclasses.is_dataclass(cur) and seen < 3:
+        nxt = None
+        for f in dataclasses.fields(cur):
+            v = getattr(cur, f.name)
+            if isinstance(v, (list, tuple)) and len(v) >= 2 and all(dataclasses.is_dataclass(x) for x in v):
+                return cur, f.name, v  # numbered records; a list of plain values (version strings) is ordered data
+            if isinstance(v, dict) and len(v) >= 2:
+                return cur, f.name, v
+            if f.name == "sub_message":
+                nxt = v
+        cur = nxt
+        seen += 1
+    return None
+
+
+def permute_records(msg, rng):
+    """A copy of msg whose records are listed in a drawn order (None when msg has fewer than two records)."""
+    import copy
+
+    hit = _record_field(msg)
+    if hit is None:
+        return None
+    owner, name, recs = hit
+    if isinstance(recs, dict):
+        keys = list(recs)
+        rng.shuffle(keys)
+        new = {k: recs[k] for k in keys}
+    else:
+        new = list(recs)
+        rng.shuffle(new)
+        if list(new) == list(recs):
+            new.reverse()
+        new = type(recs)(new) if isinstance(recs, tuple) else new
+    out = copy.deepcopy(msg)
+    cur = out
+    while cur is not None:
+        if hasattr(cur, name) and (isinstance(getattr(cur, name), (list, tuple, dict))) and len(getattr(cur, name)) == len(recs):
+            object.__setattr__(cur, name, new)
+            return out
+        cur = getattr(cur, "sub_message", None)
+    return None
+
+
+def records_multiset(msg):
+    hit = _record_field(msg)
+    if hit is None:
+        return None
+    recs = hit[2]
+    if isinstance(recs, dict):
+        return sorted(repr(x) for x in recs.items())
+    return sorted(repr(x) for x in recs)
